@@ -136,6 +136,12 @@ func (l *mLoc) rem(id string) map[string]bool {
 		if _, have := l.Items[x]; !have {
 			continue
 		}
+		if x != id && l.Unspec[x] {
+			// a dependent whose presence or content is unspecified: it
+			// (and what depends on it) may or may not go with the rest
+			l.markUnspecClosure(x)
+			continue
+		}
 		deps := l.dependents(x)
 		wasUnspec := l.Unspec[x]
 		delete(l.Items, x)
